@@ -161,8 +161,7 @@ class Ctx:
         jopts = []
         if dfs:
             jopts.append("-Dtlc2.tool.queue.IStateQueue=StateDeque")
-        if heap:
-            jopts.append("-Xmx" + heap)
+        jopts.append("-Xmx" + (heap or "6g"))
         jopts.append("-Xss256m")
         env["JAVA_TOOL_OPTIONS"] = " ".join(jopts)
         res = TlcResult()
@@ -378,12 +377,22 @@ def tail_of(path, n):
 
 
 def load_findings(prop):
-    p = os.path.join(VERIF, "known_findings.json")
-    if not os.path.exists(p):
-        return []
-    with open(p) as f:
-        d = json.load(f)
-    return [x for x in d.get("findings", []) if x.get("property") == prop and x.get("status", "open") == "open"]
+    out = []
+    paths = [os.path.join(VERIF, "known_findings.json")]
+    dd = os.path.join(VERIF, "known_findings.d")
+    if os.path.isdir(dd):
+        paths += [os.path.join(dd, n) for n in sorted(os.listdir(dd)) if n.endswith(".json")]
+    seen = set()
+    for p in paths:
+        if not os.path.exists(p):
+            continue
+        with open(p) as f:
+            d = json.load(f)
+        for x in d.get("findings", []):
+            if x.get("property") == prop and x.get("status", "open") == "open" and x.get("id") not in seen:
+                seen.add(x.get("id"))
+                out.append(x)
+    return out
 
 
 def match_finding(findings, sig):
